@@ -333,16 +333,17 @@ def block_size_field(ctx, prog):
             e = sy.rvalue(s["rv"])
             kind = e[2][0][1].split("::")[-1] if e[2][0][0] == "agg" else "?"
             origin = e[2][1][1].split("::")[-1] if e[2][1][0] == "agg" else "?"
-            kinds[kind] = (i, origin, canon(strip(e[2][2])), s)
+            kinds.setdefault(kind, []).append((i, origin, canon(strip(e[2][2])), s))
     # an error value built early and returned later (a default result) is an outcome of the place where it is RETURNED
-    for kind, (bi, origin, pos, s_) in list(kinds.items()):
-        want = canon(strip(sy.rvalue(s_["rv"])))
-        sites_ = []
-        for i, j, s in f.stmts():
-            if s["s"] == "assign" and s["lhs"]["l"] == 0 and not s["lhs"]["p"] and want in canon(strip(sy.rvalue(s["rv"]))):
-                sites_.append(i)
-        if len(set(sites_)) == 1 and sites_[0] != bi and f.dominates(bi, sites_[0]):
-            kinds[kind] = (sites_[0], origin, pos, s_)
+    for kind, lst in list(kinds.items()):
+        for n_, (bi, origin, pos, s_) in enumerate(list(lst)):
+            want = canon(strip(sy.rvalue(s_["rv"])))
+            sites_ = []
+            for i, j, s in f.stmts():
+                if s["s"] == "assign" and s["lhs"]["l"] == 0 and not s["lhs"]["p"] and want in canon(strip(sy.rvalue(s["rv"]))):
+                    sites_.append(i)
+            if len(lst) == 1 and len(set(sites_)) == 1 and sites_[0] != bi and f.dominates(bi, sites_[0]):
+                lst[n_] = (sites_[0], origin, pos, s_)
     ctx.floor(R, len(kinds), 6, "error outcomes of the block-size field parser")
     IS_COLON = r"^%s in \[58\]$" % ch
     NOT_COLON = r"^%s notin \[58\]$" % ch
@@ -390,12 +391,13 @@ def block_size_field(ctx, prog):
         if kind not in kinds:
             ctx.ob(R, "parse_block_size_from_bytes: outcome %s exists" % kind, False, "not found", f.loc())
             continue
-        b, origin, pos, s = kinds[kind]
-        cs = conds_at(b)
-        missing = [rx for rx in rxs if not any(_re.search(rx, c) for c in cs)]
-        ok = not missing and origin == "BlockSize" and _re.search(posrx, pos) is not None
-        ctx.ob(R, "parse_block_size_from_bytes: %s is raised under the grammar's condition, with origin BlockSize and the documented position" % kind, ok,
-               ("conditions %s; position %s" % (cs, pos))[:400] if not ok else "position %s; %d conditions matched" % (pos, len(rxs)), f.loc(s["sp"]))
+        # EVERY site that raises this kind is held to the kind's conditions (a second, earlier site under another condition is a new refusal)
+        for (b, origin, pos, s) in kinds[kind]:
+            cs = conds_at(b)
+            missing = [rx for rx in rxs if not any(_re.search(rx, c) for c in cs)]
+            ok = not missing and origin == "BlockSize" and _re.search(posrx, pos) is not None
+            ctx.ob(R, "parse_block_size_from_bytes: %s is raised under the grammar's condition, with origin BlockSize and the documented position" % kind, ok,
+                   ("conditions %s; position %s" % (cs, pos))[:400] if not ok else "position %s; %d conditions matched" % (pos, len(rxs)), f.loc(s["sp"]))
     # Ok outcome
     oks = G.blocks_returning_variant(f, sy, "Result::Ok")
     okc = conds_at(oks[0]) if oks else []
